@@ -4,7 +4,12 @@ try/except/finally), the shape of `_inner` (what is caught, what is sent) and of
 
 The ORDER of the protocol statements is what the Lean theorems are about: the generated `prog` is interpreted by
 `PedVerif.Subproc` and every theorem of Props/C17 is checked about it.  Reordering that keeps the property re-proves;
-dropping `tx.close()`, `remove_reader`, `join`, `rx.close()` or the EOF handler does not."""
+dropping `tx.close()`, `remove_reader`, `join`, `rx.close()` or the EOF handler does not.
+
+Also read off: whether `join` is given a timeout (`process.join(timeout=..)` / `process.join(1.0)` becomes the instruction
+`joinTimeout`, which goes on without having reaped a child that needs longer — `terminates_and_releases` does not re-prove), and
+whether the child is made daemonic (`Process(.., daemon=..)` or `process.daemon = ..`: a daemonic process may not start
+processes of its own, so a callee that does raises instead of returning — `childBeh_table` / `source_shape` do not re-prove)."""
 import ast
 from extract import Skip, src, find_func, lean_bool, HEADER
 
@@ -18,6 +23,10 @@ def _name(n):
 def _is_method_call(node, obj, meth):
     return (isinstance(node, ast.Call) and isinstance(node.func, ast.Attribute) and node.func.attr == meth
             and _name(node.func.value) == obj)
+
+
+def _is_const(node, values):
+    return isinstance(node, ast.Constant) and any(node.value is v for v in values)
 
 
 def _arg(call, pos, kw):
@@ -37,6 +46,7 @@ class Comp:
         self.nlabels = 0
         self.names = {}         # role -> python name
         self.proc_args_ok = False
+        self.daemon = False     # the child is started as a daemonic process
         self.seen = []
 
     def label(self):
@@ -80,6 +90,13 @@ class Comp:
                 if _name(v.func) == 'Process':
                     N['process'] = t.id
                     tgt, args, kw = _arg(v, 99, 'target'), _arg(v, 99, 'args'), _arg(v, 99, 'kwargs')
+                    for k in v.keywords:
+                        if k.arg is None:
+                            raise Skip('Process(**..): keywords not visible')
+                        if k.arg == 'daemon':
+                            self.daemon = self.daemon or not _is_const(k.value, (False, None))
+                        elif k.arg not in ('target', 'args', 'kwargs', 'name', 'group'):
+                            raise Skip(f'Process(): unknown keyword {k.arg}')
                     self.proc_args_ok = (_name(tgt) == '_inner' and isinstance(args, ast.Tuple) and len(args.elts) == 3
                                          and _name(args.elts[0]) == N.get('tx') and _name(args.elts[1]) == 'func'
                                          and isinstance(args.elts[2], ast.Starred) and _name(args.elts[2].value) == 'args'
@@ -108,6 +125,10 @@ class Comp:
                             N.setdefault('result', t.id)
                             self.emit('setChildProcessError', ctx)
                             return True
+            # process.daemon = <value>
+            if isinstance(t, ast.Attribute) and t.attr == 'daemon' and 'process' in N and _name(t.value) == N['process']:
+                self.daemon = not _is_const(v, (False,))
+                return True
             if isinstance(t, ast.Name) and N.get('result') == t.id:
                 # any other value stored as the result: the caller gets something that is not the child's result
                 self.emit('setForeign', ctx)
@@ -117,8 +138,12 @@ class Comp:
             c = s.value
             if 'process' in N and _is_method_call(c, N['process'], 'start'):
                 self.emit('start', ctx); return True
-            if 'process' in N and _is_method_call(c, N['process'], 'join') and not c.args and not c.keywords:
-                self.emit('join', ctx); return True
+            if 'process' in N and _is_method_call(c, N['process'], 'join'):
+                to = _arg(c, 0, 'timeout')
+                if len(c.args) > 1 or any(k.arg != 'timeout' for k in c.keywords):
+                    raise Skip('process.join(): unknown arguments')
+                # join() / join(None) / join(timeout=None) wait for the child; anything else gives up after a while
+                self.emit('join' if (to is None or _is_const(to, (None,))) else 'joinTimeout', ctx); return True
             if 'tx' in N and _is_method_call(c, N['tx'], 'close'):
                 self.emit('closeTx', ctx); return True
             if 'rx' in N and _is_method_call(c, N['rx'], 'close'):
@@ -443,6 +468,7 @@ inductive Op where
   | setChildProcessError    -- result = SubprocessError(ex=ChildProcessError(...))
   | setForeign              -- result = <anything else>
   | join                    -- process.join()
+  | joinTimeout             -- process.join(timeout=..): returns when the child has exited OR the time is up
   | closeRx                 -- rx.close()
   | raiseIfError            -- if isinstance(result, SubprocessError): raise result.exception
   | ret                     -- return result
@@ -471,6 +497,8 @@ def progRank : List Nat := {rk}
 
 /-- `Process(target=_inner, args=(tx, func, *args), kwargs=kwargs)` -/
 def processArgsForwarded : Bool := {lean_bool(c.proc_args_ok)}
+/-- the child is started as a daemonic process (`Process(.., daemon=True)` / `process.daemon = True`): it may not have children -/
+def processDaemon : Bool := {lean_bool(c.daemon)}
 /-- `_inner`: an `except Exception` (or wider) clause exists -/
 def innerCatchesException : Bool := {lean_bool(catches_exc)}
 /-- `_inner`: the clause also catches `BaseException` (SystemExit, KeyboardInterrupt) -/
